@@ -22,8 +22,17 @@ Definition range_len (r : irange) : Z :=
 
 Definition range_nth (r : irange) (i : Z) : Z := rstart r + i * rstep r.
 
+(* iteration over the Python range object: start, start+step, ... (len values).  Written with an
+   accumulator so that the extracted code is linear in the length (Z.of_nat on a unary index
+   would make it quadratic); RangeExprProofs.range_elems_nth: the i-th value is range_nth r i. *)
+Fixpoint prog_from (a s : Z) (n : nat) : list Z :=
+  match n with
+  | O => []
+  | S m => a :: prog_from (a + s) s m
+  end.
+
 Definition range_elems (r : irange) : list Z :=
-  map (fun i => range_nth r (Z.of_nat i)) (seq 0 (Z.to_nat (range_len r))).
+  prog_from (rstart r) (rstep r) (Z.to_nat (range_len r)).
 
 Definition range_last (r : irange) : Z := range_nth r (range_len r - 1).
 
@@ -53,6 +62,11 @@ Fixpoint insert_range (x : irange) (l : list irange) : list irange :=
 Definition sort_ranges (l : list irange) : list irange := fold_right insert_range [] l.
 
 Record iexpr : Type := mkE { ranges : list irange; cum : list Z; elen : Z }.
+
+(* `except ValueError as e: raise ExpressionError(...)`: only ValueError is caught; any other
+   exception propagates unchanged. *)
+Definition value_to_expression (e : exn) : exn :=
+  match e with ValueError => ExpressionError | _ => e end.
 
 Section Pinned.
   (* pinned_merge: the merge test uses the written end (defect #1);
@@ -130,7 +144,7 @@ Section Pinned.
         if at_end_or_comma r3 then
           match mk_range a b 1 with
           | Ok rg => Ok (rg, r3)
-          | Raise e => Raise (if pinned_try then e else ExpressionError)
+          | Raise e => Raise (if pinned_try then e else value_to_expression e)
           end
         else
           match r3 with
@@ -138,7 +152,7 @@ Section Pinned.
             do (s, r5) <- parse_integer r4;
             match mk_range a b s with
             | Ok rg => Ok (rg, r5)
-            | Raise _ => Raise ExpressionError
+            | Raise e => Raise (value_to_expression e)
             end
           | _ => Raise ExpressionError
           end
@@ -165,7 +179,7 @@ Section Pinned.
       do rs <- parse_ranges (S (length ts)) ts;
       match mk_expr rs with
       | Ok e => Ok e
-      | Raise _ => Raise ExpressionError          (* except ValueError -> ExpressionError *)
+      | Raise e => Raise (value_to_expression e)  (* except ValueError -> ExpressionError *)
       end
     end.
 
@@ -273,3 +287,10 @@ Section Pinned.
       end
     end.
 End Pinned.
+
+(* ---- the objects the C13 theorems quantify over (flag-off = repaired code) ---- *)
+(* an IntRange object: whatever the validating constructor returns *)
+Definition IsRange (r : irange) : Prop := mk_range (rstart r) (rend r) (rstep r) = Ok r.
+(* an IntRangeExpr object: built by IntRangeExpr.__init__ from a list of IntRange objects
+   (from_str and from_list both end in this constructor) *)
+Definition IsExpr (e : iexpr) : Prop := exists rs, Forall IsRange rs /\ mk_expr false rs = Ok e.
